@@ -24,7 +24,17 @@ def frac(num):
     return Fraction(mant) * (Fraction(10) ** int(exp or 0))
 
 
+# characters at which str.splitlines() - but not the adapters' split on LF - ends a line
+INLINE_BREAKS = ["\r", "\x0b", "\x0c", "\x1c", "\x85", "\u2028", "\u2029"]
+# what follows such a character inside ONE noise line looks like a result line of the format
+LOOKS_LIKE = {0: "Dispatch: iterations=1 runtime: 999ms", 1: "12.5", 2: "Bank Iteration-3: 7.500 ms",
+              3: "Tool: iterations=1 runtime: 5ms success: true", 4: "Iteration   1: 33.000 ns/op", 5: "wall-time (secounds): 9.99", 6: "real 9.99"}
+
+
 def noise_for(rng, which):
+    if rng.random() < 0.2:
+        # a progress line redrawn with a bare CR (or another inline break): it is still one line, and no result line
+        return "Compiling 10%" + rng.choice(INLINE_BREAKS) + "Compiling 100%" + rng.choice(INLINE_BREAKS) + LOOKS_LIKE[which]
     while True:
         l = A.noise_line(rng)
         if which == 1:
